@@ -280,6 +280,19 @@ def make_object(rng, i):
         cls = gen.SHAPE_CLASSES[(i // 3) % 8]
         d = 2 + (i // 24) % 2
         nlm = int(rng.integers(0, 3))
+        if cls in ("TriMesh", "ColouredTriMesh", "TexturedTriMesh") and rng.random() < 0.15:
+            # a mesh with vertices and no triangle: a one-row / one-column grid, the mesh of a one-pixel-wide depth strip
+            import menpo.shape as ms
+            import menpo.image as mi
+            C = getattr(ms, cls)
+            k = int(rng.integers(2, 8))
+            if rng.random() < 0.5:
+                o = C.init_2d_grid((1, k) if rng.random() < 0.5 else (k, 1))
+                d = 2
+            else:
+                o = C.init_from_depth_image(mi.Image(rng.random((1, 1, k) if rng.random() < 0.5 else (1, k, 1))))
+                d = 3
+            return o, (cls, d, "f8", "no_triangles", 0)
         o = gen.shape(rng, cls, d=d, with_landmarks=nlm)
         return o, (cls, d, "f8", "-", nlm)
     if fam == 1:
@@ -307,7 +320,7 @@ def make_object(rng, i):
         if rng.random() < 0.3:
             o.path = "somewhere/file.png"
         return o, (cls, d, np.dtype(dt).name if cls != "BooleanImage" else "bool", mk if cls != "Image" else "-", nlm)
-    K = tx.HOMOG + ["NonSquareHomogeneous", "FortranHomogeneous"]
+    K = tx.HOMOG + ["NonSquareHomogeneous", "FortranHomogeneous", "WholeNumberTranslation", "ScaleWithHistory"]
     kind = K[(i // 3) % len(K)]
     d = 2 + (i // (3 * len(K))) % 2
     if kind == "NonSquareHomogeneous":
@@ -317,6 +330,33 @@ def make_object(rng, i):
         h = rng.normal(size=(dout + 1, d + 1))
         h[-1, -1] = 1.0
         return mt.Homogeneous(h), (kind, d, "f8", "-", 0)
+    if kind == "WholeNumberTranslation":
+        # pixel offsets given as whole numbers (a list of ints, an integer array); also what such a transform hands out
+        import menpo.transform as mt
+        off = rng.integers(-40, 40, d)
+        how = int(rng.integers(0, 4))
+        o = mt.Translation([int(v) for v in off]) if how == 0 else mt.Translation(off.astype([np.int64, np.int32, np.int16][rng.integers(0, 3)]))
+        if how == 2:
+            o = o.pseudoinverse()
+        elif how == 3:
+            o = o.copy()
+        return o, (kind, d, "int", "-", 0)
+    if kind == "ScaleWithHistory":
+        # a uniform scale that someone tried to update in place with scales of other classes ("try in place, else fall back"):
+        # refused or not, the object vectorises as what it now is
+        import menpo.transform as mt
+        o = mt.UniformScale(float(rng.uniform(0.5, 2.0)), d)
+        if rng.random() < 0.3:
+            o = mt.AlignmentUniformScale(*gen.src_tgt(rng, d))
+        for _ in range(int(rng.integers(1, 3))):
+            other = [mt.NonUniformScale(rng.uniform(0.5, 2.0, d)), mt.UniformScale(float(rng.uniform(0.5, 2.0)), d),
+                     mt.NonUniformScale(rng.uniform(0.5, 2.0, d)), mt.Translation(rng.uniform(-3, 3, d))][rng.integers(0, 4)]
+            try:
+                with taps.quiet():
+                    getattr(o, ["compose_before_inplace", "compose_after_inplace"][rng.integers(0, 2)])(other)
+            except ValueError:
+                pass
+        return o, (kind, d, "f8", "-", 0)
     if kind == "FortranHomogeneous":
         # a matrix adopted as it is (copy=False) in column-major layout: a transposed view, the result of a solver
         import menpo.transform as mt
